@@ -64,6 +64,7 @@ PROPS = {
         'level': 'proof',
         'verus': [{'group': 'shard_core'}, _sg('shard_strings'), {'group': 'shard_sweeper', 'units': ['rename_same_shard', 'rename_cross_shard']}, _cg('cmd_strings', True), _cg('srv_strings'), {'group': 'srv_conn'}],
         'kani': SETRANGE_KANI,
+        'tables': [{'name': 'dispatch_table', 'kind': 'dispatch'}],
         'explanation': 'kernel-scoped: storage-engine string/key functions proved against Redis-semantics spec functions on one shard; handlers/dispatch are unverified surroundings',
     },
     'C02': {
@@ -154,6 +155,7 @@ PROPS = {
     'C18': {
         'level': 'proof',
         'verus': [{'group': 'srv_select'}, {'group': 'srv_frame'}, {'group': 'srv_exec'}, {'group': 'c13_blocking', 'units': ['notify_served_arm']}, _cg('cmd_strings', True), _cg('cmd_lists'), _cg('cmd_sets'), _cg('cmd_hashes'), {'group': 'shard_flush', 'exclude_units': SHARD_VALUE_UNITS}],
+        'tables': [{'name': 'dispatch_table', 'kind': 'dispatch'}],
         'explanation': 'the db index along the direct and the EXEC path: SELECT (refusal / per-connection effect), process_frame dispatches with the issuing connection\'s selection, EXEC runs the queue on the connection\'s database, get_shard maps db to a shard of that database, the command handlers under contract read and write only (db, .) entries of the reference dataset, flush of a shard touches that shard only',
     },
     'C19': {
